@@ -1,6 +1,148 @@
 import Infretis.Model.Proto
-open Infretis.Proto
+import Infretis.Model.ZeroSwap
+open Infretis Infretis.Proto Infretis.ZeroSwap
 
-def handle (_toks : List String) : String := "bad-op"
+/-
+Line protocol of the C11 driver.
+  frame     := op,x,v,vr,vpot          (vr 0/1, vpot int or -)
+  genframe  := op,x,v,vpot
+  ens       := i0 i1 i2 maxlen scL scR wf cap      (cap int or -)
+  script    := v0 list<genframe>
+  retis    ens0 ens1 list<frame> list<frame> script script xi
+  quantis  ens0 ens1 list<frame> list<frame> script script script script acceptAll beta0 beta1 xi p
+  retisdet a n ens0 ens1 list<frame> list<frame> xi       (double-well leap-frog engine, op = x)
+answer:
+  accept status st0 st1 w0 w1 draws expArg | list<frame> | list<frame> | list<req>
+  or err:<kind>
+-/
+
+def optInt? (s : String) : Option (Option Int) :=
+  if s = "-" then some none else (parseInt? s).map some
+
+def showOptInt : Option Int → String
+  | none => "-" | some i => toString i
+
+def parseBool? (s : String) : Option Bool :=
+  if s = "1" then some true else if s = "0" then some false else none
+
+def parseFrame? (s : String) : Option Frame :=
+  match s.splitOn "," with
+  | [a, b, c, d, e] =>
+    match parseInt? a, parseInt? b, parseInt? c, parseBool? d, optInt? e with
+    | some op, some x, some v, some vr, some vp => some { op := op, cfg := ⟨x, v⟩, vr := vr, vpot := vp }
+    | _, _, _, _, _ => none
+  | _ => none
+
+def parseGen? (s : String) : Option GenFrame :=
+  match s.splitOn "," with
+  | [a, b, c, e] =>
+    match parseInt? a, parseInt? b, parseInt? c, optInt? e with
+    | some op, some x, some v, some vp => some { op := op, cfg := ⟨x, v⟩, vpot := vp }
+    | _, _, _, _ => none
+  | _ => none
+
+def showFrame (f : Frame) : String :=
+  s!"{f.op},{f.cfg.x},{f.cfg.v},{if f.vr then 1 else 0},{showOptInt f.vpot}"
+
+def showReq : Req → String
+  | .propagate e r op c m l rr => s!"P:{e}:{if r then 1 else 0}:{op}:{c.x}:{c.v}:{m}:{l}:{rr}"
+  | .dump e t c => s!"D:{e}:{t}:{c.x}:{c.v}"
+
+def takeEns : List String → Option (Ens × List String)
+  | a :: b :: c :: m :: l :: r :: w :: cap :: rest =>
+    match parseInt? a, parseInt? b, parseInt? c, parseNat? m, parseBool? l, parseBool? r, parseBool? w, optInt? cap with
+    | some a, some b, some c, some m, some l, some r, some w, some cap =>
+      some ({ i0 := a, i1 := b, i2 := c, maxlen := m, scL := l, scR := r, wf := w, cap := cap }, rest)
+    | _, _, _, _, _, _, _, _ => none
+  | _ => none
+
+def takeScript : List String → Option (Script × List String)
+  | v0 :: rest =>
+    match optInt? v0, takeList parseGen? rest with
+    | some v0, some (fs, rest) => some ({ v0 := v0, rest := fs }, rest)
+    | _, _ => none
+  | _ => none
+
+def showErr : Err → String
+  | .assert => "err:assert" | .index => "err:index" | .type => "err:type" | .value => "err:value"
+
+def showRes (r : Except Err Result) : String :=
+  match r with
+  | .error e => showErr e
+  | .ok r =>
+    let ea := match r.expArg with | none => "-" | some q => showRat q
+    s!"{if r.accept then 1 else 0} {r.status.str} {r.st0.str} {r.st1.str} {r.w0} {r.w1} {r.draws} {ea} | " ++
+    showList showFrame r.path0 ++ " | " ++ showList showFrame r.path1 ++ " | " ++ showList showReq r.reqs
+
+def handle (toks : List String) : String :=
+  match toks with
+  | "retis" :: rest =>
+    match takeEns rest with
+    | some (e0, rest) =>
+      match takeEns rest with
+      | some (e1, rest) =>
+        match takeList parseFrame? rest with
+        | some (old0, rest) =>
+          match takeList parseFrame? rest with
+          | some (old1, rest) =>
+            match takeScript rest with
+            | some (bw, rest) =>
+              match takeScript rest with
+              | some (fw, [xi]) =>
+                match parseRat? xi with
+                | some xi => showRes (retisSwapZero e0 e1 old0 old1 bw fw xi)
+                | none => "bad-op"
+              | _ => "bad-op"
+            | none => "bad-op"
+          | none => "bad-op"
+        | none => "bad-op"
+      | none => "bad-op"
+    | none => "bad-op"
+  | "retisdet" :: a :: n :: rest =>
+    match parseInt? a, parseNat? n, takeEns rest with
+    | some a, some n, some (e0, rest) =>
+      match takeEns rest with
+      | some (e1, rest) =>
+        match takeList parseFrame? rest with
+        | some (old0, rest) =>
+          match takeList parseFrame? rest with
+          | some (old1, [xi]) =>
+            match parseRat? xi with
+            | some xi => showRes (retisSwapZeroDet (dwStep a) (·.x) (fun _ => some 0) n e0 e1 old0 old1 xi)
+            | none => "bad-op"
+          | _ => "bad-op"
+        | none => "bad-op"
+      | none => "bad-op"
+    | _, _, _ => "bad-op"
+  | "quantis" :: rest =>
+    match takeEns rest with
+    | some (e0, rest) =>
+      match takeEns rest with
+      | some (e1, rest) =>
+        match takeList parseFrame? rest with
+        | some (old0, rest) =>
+          match takeList parseFrame? rest with
+          | some (old1, rest) =>
+            match takeScript rest with
+            | some (sa, rest) =>
+              match takeScript rest with
+              | some (sb, rest) =>
+                match takeScript rest with
+                | some (sc, rest) =>
+                  match takeScript rest with
+                  | some (sd, [aa, b0, b1, xi, p]) =>
+                    match parseBool? aa, parseRat? b0, parseRat? b1, parseRat? xi, parseRat? p with
+                    | some aa, some b0, some b1, some xi, some p =>
+                      showRes (quantisSwapZero e0 e1 old0 old1 sa sb sc sd aa b0 b1 xi p)
+                    | _, _, _, _, _ => "bad-op"
+                  | _ => "bad-op"
+                | none => "bad-op"
+              | none => "bad-op"
+            | none => "bad-op"
+          | none => "bad-op"
+        | none => "bad-op"
+      | none => "bad-op"
+    | none => "bad-op"
+  | _ => "bad-op"
 
 def main : IO Unit := mainWith handle
